@@ -5,7 +5,7 @@
    critical sections), every schedule and every deadline oracle.  Workers do not appear: the models are
    written against the agent contract of Base/Agent.v, which is all a primitive sees of the scheduler. *)
 From Coq Require Import List NArith Bool.
-From Pika Require Import Base.Conc Base.Agent Model.Mutex Proofs.MutexProofs.
+From Pika Require Import Base.Conc Base.Agent Model.Mutex Proofs.MutexProofs Model.RecMutexGen Proofs.RecMutexGenProofs.
 Import ListNotations.
 
 (* pika::mutex / timed_mutex: at most one task is between an acquisition (lock, successful try_lock /
@@ -110,6 +110,147 @@ Theorem C06_recursive_count_is_depth : forall progs sched t,
 Proof. exact rm_count_is_depth. Qed.
 Print Assumptions C06_recursive_count_is_depth.
 
+(* ---- round p12b: the recursive layer over ANY underlying lock (Model/RecMutexGen.v) ----
+   [excl_lock ustep ucall uidle holds ug0 ul0 uin uinv] (Proofs/RecMutexGenProofs.v) is the exclusion interface of an
+   underlying lock given as a step machine: an inductive invariant uinv that implies "at most one thread holds", is kept
+   by the steps of disciplined callers, lock() returns only with the caller holding, try_lock()'s result is "the caller
+   holds now", unlock() by the holder ends with the caller not holding; who holds changes only at the return of a call.
+   rg_run is the recursive layer (accesses 620..625 as in rm_tstep) calling into that machine. *)
+Theorem C06_recursive_exclusion_any_lock :
+  forall (X UG UL UO : Type) (ustep : UO -> nat -> UG -> UL -> UG * UL)
+    (ucall : uop X -> UL -> UL) (uidle holds : UL -> bool) (ug0 : UG) (ul0 : nat -> UL)
+    (uin : uop X -> UL -> Prop) (uinv : UG -> (nat -> UL) -> Prop),
+  excl_lock ustep ucall uidle holds ug0 ul0 uin uinv ->
+  forall progs sched t1 t2,
+  let c := rg_run X UG UL UO ustep ucall uidle holds ug0 ul0 sched progs in
+  rg_owns (snd c t1) -> rg_owns (snd c t2) -> t1 = t2.
+Proof. exact recursive_exclusion_any_lock. Qed.
+Print Assumptions C06_recursive_exclusion_any_lock.
+
+Theorem C06_recursive_count_is_depth_any_lock :
+  forall (X UG UL UO : Type) (ustep : UO -> nat -> UG -> UL -> UG * UL)
+    (ucall : uop X -> UL -> UL) (uidle holds : UL -> bool) (ug0 : UG) (ul0 : nat -> UL)
+    (uin : uop X -> UL -> Prop) (uinv : UG -> (nat -> UL) -> Prop),
+  excl_lock ustep ucall uidle holds ug0 ul0 uin uinv ->
+  forall progs sched,
+  let c := rg_run X UG UL UO ustep ucall uidle holds ug0 ul0 sched progs in
+  (forall t, g_pc (snd c t) = GIdle -> gdepth (snd c t) <> 0 ->
+     gcount (fst c) = N.of_nat (gdepth (snd c t)) /\ gctx (fst c) = Some t /\
+     holds (gul (snd c t)) = true /\ forall u, holds (gul (snd c u)) = true -> u = t) /\
+  ((forall t, ~ rg_owns (snd c t)) ->
+     gcount (fst c) = 0%N /\ gctx (fst c) = None /\ forall u, holds (gul (snd c u)) = false).
+Proof. exact recursive_count_is_depth_any_lock. Qed.
+Print Assumptions C06_recursive_count_is_depth_any_lock.
+
+(* the layer is a disciplined caller of the underlying lock: inside lock()/try_lock() it does not hold, inside unlock()
+   it holds, otherwise no underlying call is in progress *)
+Theorem C06_recursive_layer_disciplined_any_lock :
+  forall (X UG UL UO : Type) (ustep : UO -> nat -> UG -> UL -> UG * UL)
+    (ucall : uop X -> UL -> UL) (uidle holds : UL -> bool) (ug0 : UG) (ul0 : nat -> UL)
+    (uin : uop X -> UL -> Prop) (uinv : UG -> (nat -> UL) -> Prop),
+  excl_lock ustep ucall uidle holds ug0 ul0 uin uinv ->
+  forall progs sched t,
+  let c := rg_run X UG UL UO ustep ucall uidle holds ug0 ul0 sched progs in
+  match g_pc (snd c t) with
+  | GLock => uin ULock (gul (snd c t)) /\ holds (gul (snd c t)) = false
+  | GTry => uin UTry (gul (snd c t)) /\ holds (gul (snd c t)) = false
+  | GRel => uin UUnlock (gul (snd c t)) /\ holds (gul (snd c t)) = true
+  | GEnv => exists x, uin (UEnv x) (gul (snd c t))
+  | _ => uidle (gul (snd c t)) = true
+  end.
+Proof. exact recursive_layer_disciplined_any_lock. Qed.
+Print Assumptions C06_recursive_layer_disciplined_any_lock.
+
+(* both existing lock models satisfy the interface with their existing invariants *)
+Theorem C06_spinlock_is_exclusion_lock :
+  excl_lock sl_tstep sl_ucall sl_uidle sl_held sl_init sl_ul0 sl_uin sl_inv.
+Proof. exact sl_is_excl_lock. Qed.
+Print Assumptions C06_spinlock_is_exclusion_lock.
+
+Theorem C06_mutex_is_exclusion_lock :
+  excl_lock mx_tstep mx_ucall mx_uidle held mx_init mx_ul0 mx_uin mx_inv.
+Proof. exact mx_is_excl_lock. Qed.
+Print Assumptions C06_mutex_is_exclusion_lock.
+
+(* instance: recursive_mutex_impl<spinlock> *)
+Theorem C06_recursive_over_spinlock_exclusion : forall progs sched t1 t2,
+  let c := rsl_run sched progs in
+  rg_owns (snd c t1) -> rg_owns (snd c t2) -> t1 = t2.
+Proof. exact rsl_exclusion. Qed.
+Print Assumptions C06_recursive_over_spinlock_exclusion.
+
+Theorem C06_recursive_over_spinlock_depth : forall progs sched,
+  let c := rsl_run sched progs in
+  (forall t, g_pc (snd c t) = GIdle -> gdepth (snd c t) <> 0 ->
+     gcount (fst c) = N.of_nat (gdepth (snd c t)) /\ gctx (fst c) = Some t /\
+     slv (gu (fst c)) = true /\ slholder (gu (fst c)) = Some t) /\
+  ((forall t, ~ rg_owns (snd c t)) ->
+     gcount (fst c) = 0%N /\ gctx (fst c) = None /\ forall u, sl_held (gul (snd c u)) = false).
+Proof. exact rsl_depth. Qed.
+Print Assumptions C06_recursive_over_spinlock_depth.
+
+(* the spinlock instance IS the model the lock-step harness replays on the real recursive_mutex_impl<spinlock>:
+   every run of rm_tstep is the image (rsl_abs_g / rsl_abs_l) of the instance's run on the same schedule *)
+Theorem C06_recursive_spinlock_instance_is_rm : forall progs sched,
+  let c := rsl_run sched (fun t => map rg_of_rm (progs t)) in
+  let c' := rm_run sched progs in
+  fst c' = rsl_abs_g (fst c) /\ forall t, snd c' t = rsl_abs_l (snd c t).
+Proof. exact rsl_is_rm. Qed.
+Print Assumptions C06_recursive_spinlock_instance_is_rm.
+
+(* instance: recursive_mutex_impl<pika::mutex> on tasks (mx_tstep with its waiter queue, agent suspend / resume; user
+   code between the calls yields, receives stale wake-up tokens, writes unprotected data) *)
+Theorem C06_recursive_over_mutex_exclusion : forall progs sched t1 t2,
+  let c := rmx_run sched progs in
+  rg_owns (snd c t1) -> rg_owns (snd c t2) -> t1 = t2.
+Proof. exact rmx_exclusion. Qed.
+Print Assumptions C06_recursive_over_mutex_exclusion.
+
+Theorem C06_recursive_over_mutex_depth : forall progs sched,
+  let c := rmx_run sched progs in
+  (forall t, g_pc (snd c t) = GIdle -> gdepth (snd c t) <> 0 ->
+     gcount (fst c) = N.of_nat (gdepth (snd c t)) /\ gctx (fst c) = Some t /\ owner (gu (fst c)) = Some t) /\
+  ((forall t, ~ rg_owns (snd c t)) ->
+     gcount (fst c) = 0%N /\ gctx (fst c) = None /\ owner (gu (fst c)) = None).
+Proof. exact rmx_depth. Qed.
+Print Assumptions C06_recursive_over_mutex_depth.
+
+Theorem C06_recursive_over_mutex_owner_iff_owns : forall progs sched t,
+  let c := rmx_run sched progs in owner (gu (fst c)) = Some t <-> rg_owns (snd c t).
+Proof. exact rmx_owner_iff_owns. Qed.
+Print Assumptions C06_recursive_over_mutex_owner_iff_owns.
+
+(* the layer never provokes the errors pika::mutex reports for misuse (lock by the owner: deadlock, unlock by a
+   non-owner: lock_error): no EDead / EErr event is ever logged by the underlying mutex *)
+Theorem C06_recursive_over_mutex_no_misuse_error : forall progs sched e,
+  In e (mxlog (gu (fst (rmx_run sched progs)))) -> mx_is_error e = false.
+Proof. exact rmx_no_misuse_error. Qed.
+Print Assumptions C06_recursive_over_mutex_no_misuse_error.
+
+(* no unlock of the recursive mutex is lost: if nothing can move and the underlying mutex is free, nobody is blocked in
+   lock(); with balanced programs (a task that finished has released every level) a stuck state is a finished state;
+   and rmx_stuck is exactly "nothing can move": any other task changes the state with its next step *)
+Theorem C06_recursive_over_mutex_no_lost_unlock : forall progs sched,
+  let c := rmx_run sched progs in
+  rmx_stuck (fst c) (snd c) -> owner (gu (fst c)) = None ->
+  forall t, ~ rmx_blocked_in_lock (fst c) (snd c t) t.
+Proof. exact rmx_no_lost_unlock. Qed.
+Print Assumptions C06_recursive_over_mutex_no_lost_unlock.
+
+Theorem C06_recursive_over_mutex_stuck_balanced_all_done : forall progs sched,
+  let c := rmx_run sched progs in
+  rmx_stuck (fst c) (snd c) -> (forall t, rmx_finished (snd c t) -> gdepth (snd c t) = 0) ->
+  forall t, rmx_finished (snd c t).
+Proof. exact rmx_stuck_balanced_all_done. Qed.
+Print Assumptions C06_recursive_over_mutex_stuck_balanced_all_done.
+
+Theorem C06_recursive_over_mutex_enabled_unless_stuck : forall progs sched o t,
+  let c := rmx_run sched progs in
+  ~ rmx_finished (snd c t) -> ~ rmx_blocked_in_lock (fst c) (snd c t) t ->
+  rmx_tstep o t (fst c) (snd c t) <> (fst c, snd c t).
+Proof. exact rmx_enabled_unless_stuck_run. Qed.
+Print Assumptions C06_recursive_over_mutex_enabled_unless_stuck.
+
 (* ---- non-vacuity ---- *)
 (* three tasks: 0 locks, writes, yields inside the critical section, unlocks; 1 blocks in lock() and is
    handed the mutex; 2 try_locks while it is owned (false), later misuses unlock.  The run ends stuck
@@ -151,4 +292,42 @@ Example C06_example_recursive :
   map (fun e => (rm_tid e, rm_res e, rm_cnt e)) (rev (rmlog (fst c))) =
     [(0,true,1%N);(1,false,0%N);(0,true,2%N);(0,true,1%N);(0,true,0%N);(1,true,1%N)] /\
   rdepth (snd c 1) = 1 /\ rctx (fst c) = Some 1.
+Proof. vm_compute. repeat split. Qed.
+
+(* recursive_mutex_impl<pika::mutex>: task 0 locks twice (depth 2), task 1 (carrying a stale wake-up token) calls lock():
+   its first suspend returns spuriously, the underlying lock() re-tests, queues again and blocks; task 0 yields inside
+   the critical section, unlocks twice (the second one releases the underlying mutex and hands it on), task 1 wakes,
+   acquires and publishes itself *)
+Example C06_example_recursive_over_mutex :
+  let progs := fun t => match t with
+     | 0 => [GOLock; GOLock; GOEnv EYield; GOUnlock; GOUnlock]
+     | 1 => [GOEnv ESpur; GOLock; GOUnlock]
+     | _ => [] end in
+  let f := false in
+  let s1 := [(0,f);(0,f);(0,f);(0,f);(0,f);(0,f); (1,f);(1,f);(1,f);(1,f);(1,f);(1,f);(1,f);(1,f);(1,f)] in
+  let s2 := s1 ++ [(0,f);(0,f);(0,f);(0,f);(0,f);(0,f)] in
+  let s3 := s2 ++ [(1,f);(1,f);(1,f)] in
+  let show := fun c : rg_shared mx_shared * locals (rg_local mx_env mx_local) =>
+    (gcount (fst c), gctx (fst c), owner (gu (fst c)), queue (gu (fst c)), rev (mxlog (gu (fst c))),
+     (g_pc (snd c 0), gdepth (snd c 0)), (g_pc (snd c 1), gdepth (snd c 1), pc (gul (snd c 1)), blocked (ag (gu (fst c)) 1))) in
+  show (rmx_run s1 progs) =
+    (2%N, Some 0, Some 0, [1], [EAcq 0 0; EWait 1; EWait 1], (GIdle, 2), (GLock, 0, PSusp, true)) /\
+  show (rmx_run s2 progs) =
+    (0%N, None, None, [], [EAcq 0 0; EWait 1; EWait 1; ERel 0 0 1], (GIdle, 0), (GLock, 0, PSusp, false)) /\
+  show (rmx_run s3 progs) =
+    (1%N, Some 1, Some 1, [], [EAcq 0 0; EWait 1; EWait 1; ERel 0 0 1; EAcq 1 0], (GIdle, 0), (GIdle, 1, PIdle, false)) /\
+  map (fun e => (rm_tid e, rm_kind e, rm_res e, rm_cnt e)) (rev (glog (fst (rmx_run s3 progs)))) =
+    [(0, RLock, true, 1%N); (0, RLock, true, 2%N); (0, RUnlock, true, 1%N); (0, RUnlock, true, 0%N); (1, RLock, true, 1%N)].
+Proof. vm_compute. repeat split. Qed.
+
+(* the same program shape on the spinlock instance; its abstraction is the run of rm_tstep (C06_example_recursive) *)
+Example C06_example_recursive_over_spinlock :
+  let progs := fun t => match t with 0 => [RLock; RLock; RUnlock; RUnlock] | 1 => [RTry; RLock] | _ => [] end in
+  let u := tt in
+  let s := [(0,u);(0,u);(0,u);(0,u);(0,u);(1,u);(1,u);(0,u);(0,u);(0,u);(0,u);(0,u);(0,u);(1,u);(1,u);(1,u);(1,u);(1,u)] in
+  let c := rsl_run s (fun t => map rg_of_rm (progs t)) in
+  map (fun e => (rm_tid e, rm_res e, rm_cnt e)) (rev (glog (fst c))) =
+    [(0,true,1%N);(1,false,0%N);(0,true,2%N);(0,true,1%N);(0,true,0%N);(1,true,1%N)] /\
+  gdepth (snd c 1) = 1 /\ gctx (fst c) = Some 1 /\ slholder (gu (fst c)) = Some 1 /\
+  rsl_abs_g (fst c) = fst (rm_run s progs).
 Proof. vm_compute. repeat split. Qed.
